@@ -5,7 +5,7 @@
 (b) byte soup: ALL byte strings of length <= L over 19 bytes, as bytes with three encoding hints.
 (c) pump family: (l)^n and (l1 l2)^n for letters of the union alphabet with n above CPython's recursion limit,
     followed by each closer, optionally inside <div>/<table>/<svg>/<ruby>.
-Oracle: no exception of any type; watchdog (20 s) not hit; for documents the skeleton
+Oracle: no exception of any type; watchdog (5 s short inputs, 20 s long ones) not hit; for documents the skeleton
 doctype? comment* html comment*, html = head then body|frameset (+ noframes after a frameset), no
 non-whitespace text directly under html, no text at document level.
 """
@@ -20,28 +20,20 @@ H = "c03_total"
 WS = " \t\n\x0c\r"
 
 
-class Timeout(Exception):
+class Timeout(BaseException):
     pass
 
 
-def _alarm(signum, frame):
-    raise Timeout()
-
-
 def guarded(fn, seconds=20):
-    old = signal.signal(signal.SIGALRM, _alarm)
-    signal.setitimer(signal.ITIMER_REAL, seconds)
     try:
-        return ("ok", fn())
+        with engine.time_limit(seconds, Timeout):
+            return ("ok", fn())
     except Timeout:
         return ("timeout", None)
     except RecursionError as e:
         return ("raised", "RecursionError")
     except Exception as e:
         return ("raised", "%s: %s" % (type(e).__name__, str(e)[:120]))
-    finally:
-        signal.setitimer(signal.ITIMER_REAL, 0)
-        signal.signal(signal.SIGALRM, old)
 
 
 def skeleton_dom(doc):
@@ -138,7 +130,8 @@ def run_one(data, container, scripting, cfg, **kw):
         if container is None:
             return p.parse(data, scripting=scripting, **kw)
         return p.parseFragment(data, container=container, scripting=scripting, **kw)
-    st, res = guarded(go)
+    # (short inputs parse in milliseconds: 5 s is already > 100x; long nesting pumps get the full 20 s)
+    st, res = guarded(go, 20 if len(data) > 400 else 5)
     if st != "ok":
         return "%s:%s" % (st, res)
     if container is None:
@@ -174,6 +167,9 @@ def step(ctx, word):
     if j is not None:
         v = engine.Violation(H, {"kind": "word", "theme": theme, "container": container, "scripting": scripting}, text,
                              "a tree with the document skeleton", j[0], j[0], j[1])
+    if j is not None and j[1].endswith(":timeout"):
+        # a parse that does not terminate has no state to continue from: all such words are one state
+        return (("nontermination",), "nontermination", v)
     try:
         p, snap = drive.suspended_parse(text, builder="dom", container=container, scripting=scripting)
         key = drive.parser_key(p, snap)
@@ -341,5 +337,5 @@ def run(run):
         run.set("transitions", 1)
         run.set("traces_validated_against_impl", 1)
     run.set("exhaustive", True)
-    run.assumptions.append("termination is checked with a 20 s watchdog per parse; nesting depth up to %d" % (1100 if quick else 5000))
+    run.assumptions.append("termination is checked with a watchdog per parse (5 s for inputs up to 400 characters, 20 s above); nesting depth up to %d" % (1100 if quick else 5000))
     return run.finish("model_checking")
